@@ -151,6 +151,7 @@ def gen_case(rng, tier, n=None, blocks=None, merge=None):
         "transfer": [rng.choice(["shared", "copied"]) for _ in range(nb)],
         "merge": merge if merge is not None else _gen_merge(rng, nb),
         "lazy": lazy,
+        "acc_how": rng.choice(["fresh", "reset", "resize", "init_fields"]),
         "xform": rng.choice([None, None, None, None, "fortran", "strided", "float32"]),
         "sched": gen_sched(rng),
     }
@@ -384,6 +385,36 @@ def run_case(case, replay=None):
             rec.probe("repo_reduction_checked")
             rec.probe("repo_reduction_odd_block_count", nb % 2 == 1 and nb > 1)
 
+    # ---------------- accumulation into a fresh / reset / resized container ----------------
+    if not any(_is_lazy(st) for st in pool):
+        import copy as _copy
+        how = case.get("acc_how", "fresh")
+        cc, dd = pool[0].n_gaussians, pool[0].n_features
+        try:
+            if how == "fresh":
+                acc = GMMStats(cc, dd)
+            elif how == "reset":
+                acc = _copy.deepcopy(pool[0])
+                acc.reset()
+            elif how == "resize":
+                acc = GMMStats(cc + 1, dd + 2)
+                acc.n = acc.n + 3.0
+                acc.resize(cc, dd)
+            else:  # init_fields without arguments
+                acc = _copy.deepcopy(pool[-1])
+                acc.init_fields()
+            for st in pool:
+                acc += _copy.deepcopy(st)
+            acc_snap = _concrete(acc)
+        except HarnessError:
+            raise
+        except Exception as e:
+            return Result.violation("merge-raises", {"step": "accumulator:" + how,
+                                                     "exception": repr(e)[:300]}, **rec.fields())
+        rec.probe("accumulator_" + how)
+    else:
+        acc_snap = None
+
     # ---------------- reduce: seeded merge schedule ----------------
     rowc = list(rows)
     for step_no, step in enumerate(case["merge"]):
@@ -462,6 +493,12 @@ def run_case(case, replay=None):
     if bad is not None:
         return Result.violation("whole-vs-reference-model",
                                 {"field": bad[0], "err": bad[1], "bound": bad[2]}, **rec.fields())
+    if acc_snap is not None:
+        bad = _close(acc_snap, whole, n_rows, s)
+        if bad is not None:
+            return Result.violation("accumulator-vs-whole",
+                                    {"field": bad[0], "err": bad[1], "bound": bad[2],
+                                     "accumulator": case.get("acc_how", "fresh")}, **rec.fields())
     bad = _close(merged, whole, n_rows, s)
     if bad is not None:
         return Result.violation("split-and-add-vs-whole",
